@@ -111,6 +111,9 @@ pub fn run(args: &[String]) {
     let mut nfail = 0usize;
     let mut execs = 0usize;
     for (ci, c) in cases.iter().enumerate() {
+        if nfail > 40 {
+            break; // enough evidence; every further failing case costs its time-outs
+        }
         let mode = c["mode"].as_str().unwrap();
         let reqs = c["reqs"].as_array().unwrap();
         let payload_n = c["payload"].as_u64().unwrap() as usize;
